@@ -20,7 +20,7 @@
 (* Part 2: the encoder the text describes in functional form (EncModel);   *)
 (*         Z80RleEnc.tla has it as a per-byte state machine (pattern A).   *)
 (***************************************************************************)
-EXTENDS Integers, Sequences, FiniteSets
+EXTENDS Integers, Sequences, FiniteSets, SequencesExt
 
 ED == 237
 Rep(n, b) == [k \in 1..n |-> b]
@@ -101,19 +101,73 @@ RunsFrom(blk, i, v1) ==
             ELSE <<<<-1, 1>>>>                         \* poison: truncated token
        ELSE <<<<blk[i], 1>>>> \o RunsFrom(blk, i + 1, v1)
 
-RECURSIVE NormFrom(_, _, _, _)
-\* runs[i..], with a pending run (b, n)
-NormFrom(runs, i, b, n) ==
-  IF i > Len(runs) THEN (IF n > 0 THEN <<<<b, n>>>> ELSE <<>>)
-  ELSE IF runs[i][2] = 0 THEN NormFrom(runs, i + 1, b, n)
-  ELSE IF n > 0 /\ runs[i][1] = b THEN NormFrom(runs, i + 1, b, n + runs[i][2])
-  ELSE (IF n > 0 THEN <<<<b, n>>>> ELSE <<>>) \o NormFrom(runs, i + 1, runs[i][1], runs[i][2])
-
-Norm(runs) == NormFrom(runs, 1, 0, 0)
+Norm(runs) ==
+  FoldLeft(LAMBDA acc, r : IF r[2] = 0 THEN acc
+                           ELSE IF acc # <<>> /\ acc[Len(acc)][1] = r[1]
+                                THEN [acc EXCEPT ![Len(acc)] = <<r[1], @[2] + r[2]>>]
+                                ELSE Append(acc, r),
+           <<>>, runs)
 SpecDecodeRuns(blk, v1) == Norm(RunsFrom(blk, 1, v1))
 
-RECURSIVE RunsLen(_, _)
-RunsLen(runs, i) == IF i > Len(runs) THEN 0 ELSE runs[i][2] + RunsLen(runs, i + 1)
+(***************************************************************************)
+(* The decoder as a byte-at-a-time automaton (what a streaming reader      *)
+(* does).  mode 0: at a token boundary; 1: one ED seen, undecided; 2: ED ED *)
+(* seen, the next byte is the count; 3: count known (c), the next byte is   *)
+(* the value.  It is evaluated with FoldLeft, i.e. iteratively, so blocks   *)
+(* of thousands of bytes are cheap for TLC; RleTables.tla checks on every   *)
+(* short block that it agrees with the declarative SpecDecode/WellFormed.   *)
+(***************************************************************************)
+StreamInit == [m |-> 0, c |-> 0, out |-> <<>>, bad |-> FALSE]
+StreamStep(st, x) ==
+  CASE st.m = 0 -> IF x = ED THEN [st EXCEPT !.m = 1] ELSE [st EXCEPT !.out = Append(@, x)]
+    [] st.m = 1 -> IF x = ED THEN [st EXCEPT !.m = 2] ELSE [st EXCEPT !.m = 0, !.out = @ \o <<ED, x>>]
+    [] st.m = 2 -> [st EXCEPT !.m = 3, !.c = x, !.bad = @ \/ x = 0]
+    [] st.m = 3 -> [st EXCEPT !.m = 0, !.out = @ \o Rep(st.c, x)]
+StreamEnd(st) == IF st.m = 1 THEN [st EXCEPT !.m = 0, !.out = Append(@, ED)]
+                 ELSE IF st.m > 1 THEN [st EXCEPT !.bad = TRUE] ELSE st
+StreamRun(blk) == StreamEnd(FoldLeft(StreamStep, StreamInit, blk))
+StreamDecode(blk) == StreamRun(blk).out
+StreamWellFormed(blk) == ~StreamRun(blk).bad
+
+\* version 1: the block must end with the marker; what precedes it is a well formed data block
+BodyV1(blk) == SubSeq(blk, 1, Len(blk) - 4)
+StreamWellFormedV1(blk) == Len(blk) >= 4 /\ SubSeq(blk, Len(blk) - 3, Len(blk)) = Marker /\ StreamWellFormed(BodyV1(blk))
+
+(***************************************************************************)
+(* The same automaton without building the decoded string: it walks a      *)
+(* NORMAL run list w (adjacent runs have different bytes, counts > 0)      *)
+(* alongside the block.  (j, u): u bytes of run j of w are already matched. *)
+(* bad = block position (1-based) of the first token that does not fit.    *)
+(* MatchRuns = -1 iff the block is well formed and decodes exactly to w.   *)
+(***************************************************************************)
+IsNormal(w) == /\ \A k \in 1..Len(w) : w[k][2] > 0
+               /\ \A k \in 1..(Len(w) - 1) : w[k][1] # w[k + 1][1]
+
+Take(w, st, b, n) ==
+  IF st.bad # 0 THEN st
+  ELSE IF n = 0 \/ st.j > Len(w) THEN [st EXCEPT !.bad = st.pos]
+  ELSE IF w[st.j][1] # b \/ st.u + n > w[st.j][2] THEN [st EXCEPT !.bad = st.pos]
+  ELSE IF st.u + n = w[st.j][2] THEN [st EXCEPT !.j = @ + 1, !.u = 0]
+  ELSE [st EXCEPT !.u = @ + n]
+
+MatchInit == [m |-> 0, c |-> 0, j |-> 1, u |-> 0, bad |-> 0, pos |-> 1]
+MatchStep(w, st0, x) ==
+  LET st == [st0 EXCEPT !.pos = @ + 1] IN      \* pos = position of the NEXT byte; tokens are blamed at their last byte
+  CASE st0.m = 0 -> IF x = ED THEN [st EXCEPT !.m = 1] ELSE Take(w, st, x, 1)
+    [] st0.m = 1 -> IF x = ED THEN [st EXCEPT !.m = 2] ELSE [Take(w, Take(w, st, ED, 1), x, 1) EXCEPT !.m = 0]
+    [] st0.m = 2 -> [st EXCEPT !.m = 3, !.c = x]
+    [] st0.m = 3 -> [Take(w, st, x, st0.c) EXCEPT !.m = 0]
+MatchEnd(w, st) ==
+  LET e == IF st.m = 1 THEN Take(w, st, ED, 1) ELSE st IN
+  IF e.bad # 0 THEN e.bad
+  ELSE IF st.m > 1 \/ e.j # Len(w) + 1 \/ e.u # 0 THEN e.pos
+  ELSE -1
+MatchRuns(blk, w) == MatchEnd(w, FoldLeft(LAMBDA st, x : MatchStep(w, st, x), MatchInit, blk))
+MatchRunsV1(blk, w) ==
+  IF Len(blk) < 4 \/ SubSeq(blk, Len(blk) - 3, Len(blk)) # Marker THEN 0 ELSE MatchRuns(BodyV1(blk), w)
+RunsOf(s) == [k \in 1..Len(s) |-> <<s[k], 1>>]
+
+RunsTotal(runs) == FoldLeft(LAMBDA acc, r : acc + r[2], 0, runs)
 
 (***************************************************************************)
 (* Part 2 - the encoder the text describes, in functional form (the        *)
